@@ -122,7 +122,7 @@ class _Jac(LinearOperator):
         self.fcn = fcn
         self.yparam = yparam
         self.params = list(params)
-        self.objparams = fcn.objparams()
+        self.objparams = list(fcn.objparams())  # a copy: the operator's parameters are edited in place
         self.yout = yout
         self.v = v
         self.idx = idx
